@@ -93,6 +93,12 @@ const IDIOMS: &[(&str, &str)] = &[
         "=== k@ ===\n~ pick@ = LIST_RANDOM(pool@)\nDrew {pick@} of {pool@}: {LIST_ALL(pick@)}.\n~ pick@ = LIST_MIN(pool@)\nMin {pick@}: {LIST_ALL(pick@)} max {LIST_MAX(pool@)}: {LIST_ALL(LIST_MAX(pool@))}.\n~ pool@ -= pick@\nRest {pool@} {LIST_ALL(LIST_RANDOM(pool@))} {A@(1)} {B@(3)}.\n-> NEXT\nGLOB LIST A@ = x, y, w\nGLOB LIST B@ = x, z, w\nGLOB VAR pool@ = (A@.x, B@.x, A@.w, B@.w, B@.z)\nGLOB VAR pick@ = ()\n",
     ),
     (
+        // one `()` literal reached from several places (a function returning it, a ref
+        // parameter cleared with it): what a variable makes of it must not stick to the literal
+        "shared_empty_list_literal",
+        "=== k@ ===\nNothing yet: {LIST_INVERT(nothing@())} / {LIST_ALL(nothing@())}.\n~ bag@ = nothing@()\nBag {bag@} all {LIST_ALL(bag@)}.\n~ clear@(inv@)\nInv {inv@} inverse {LIST_INVERT(inv@)}.\nStill nothing: {LIST_INVERT(nothing@())}.\n-> NEXT\n=== function nothing@() ===\n~ return ()\n=== function clear@(ref v) ===\n~ v = ()\nGLOB LIST F@ = apple@, banana@\nGLOB LIST T@ = (hammer@), saw@\nGLOB VAR bag@ = (F@.apple@)\nGLOB VAR inv@ = (T@.hammer@)\n",
+    ),
+    (
         // two items of ONE list share a value: which item a number stands for must not depend
         // on hash order (list from number, list + n, list - n, ++, --)
         "list_duplicate_values",
